@@ -475,15 +475,14 @@ def load_targets():
     def add(d, origin):
         d = dict(d)
         d["fns"] = [tuple(x) for x in d.get("fns", [])]
-        # (b0809, additive) a json block may bring its own normalisation rules `"rules": {name: [regex, replacement, meaning,
-        # count?]}` (a name already bound to another rule is an error) and a plan `"normalise": {"Impl::fn": [rule names]}`
-        for rn, rv in (d.pop("rules", None) or {}).items():
-            rv = tuple(rv)
-            if rn in RULES and tuple(RULES[rn]) != rv:
+        # (b1012, round 9) normalisation from a json target file: `"rules": {name: [regex, replacement, why, count?]}` are added to
+        # RULES (a name may not be redefined differently), `"normalise": {"Impl::fn" | "::fn": [rule names]}`
+        for rn, r in (d.pop("rules", None) or {}).items():
+            if rn in RULES and tuple(RULES[rn]) != tuple(r):
                 raise ExtractError("x_fn: %s: normalisation rule %s is already defined differently" % (origin, rn))
-            RULES[rn] = rv
-        if isinstance(d.get("normalise"), dict):
-            d["normalise"] = {(tuple(k.rsplit("::", 1)) if "::" in k else (None, k)) if isinstance(k, str) else k: list(v)
+            RULES[rn] = tuple(r)
+        if d.get("normalise") and not all(isinstance(k, tuple) for k in d["normalise"]):
+            d["normalise"] = {((k.split("::", 1)[0] or None, k.split("::", 1)[1]) if isinstance(k, str) else k): list(v)
                               for k, v in d["normalise"].items()}
         if d["area"] not in by:
             d.setdefault("consts", []); d.setdefault("structs", []); d.setdefault("externals", {}); d.setdefault("foreign_structs", {})
@@ -503,9 +502,7 @@ def load_targets():
         t["foreign_structs"].update(d.get("foreign_structs", {}))
         t["tuple_structs"] += [n for n in d.get("tuple_structs", []) if n not in t["tuple_structs"]]
         t["fns_from"] += [n for n in d.get("fns_from", []) if n not in t["fns_from"]]
-        if d.get("normalise"):      # (b0809, additive) plans of further functions of the same area
-            t["normalise"] = dict(t.get("normalise") or {})
-            for k, v in d["normalise"].items(): t["normalise"].setdefault(k, v)
+        if d.get("normalise"): t.setdefault("normalise", {}).update(d["normalise"])
     for t in TARGETS: add(t, "TARGETS")
     for path in sorted(glob.glob(os.path.join(HERE, "fn_targets", "*.json"))):
         try:
